@@ -374,7 +374,10 @@ func runMergePlan(c *Ctx, i int, rng *rand.Rand, class string, slice int) {
 		}
 		if class == "tall" || class == "tall-edge" || class == "huge" {
 			// (small fixed chunk sizes cost chunks x terms: gigabytes with 65536 documents)
-			st.mode = []uint32{1026, 1025, 1026, 1024}[rng.Intn(4)]
+			st.mode = []uint32{1026, 1025, 1026, 1024, 1023, 800}[rng.Intn(6)]
+			if class == "huge" && st.mode < 1024 {
+				st.mode = 1026
+			}
 		}
 		var ims []*model.Seg
 		for k, in := range st.inputs {
@@ -460,7 +463,7 @@ func runMergePlan(c *Ctx, i int, rng *rand.Rand, class string, slice int) {
 		for l, b := range batches {
 			lm := mode
 			if class == "tall" {
-				lm = []uint32{1026, 1025, 64, 1026}[l%4]
+				lm = []uint32{1026, 1025, 64, 1026, 1023, 900}[(l+i/len(planClasses))%6]
 			} else if class == "huge" {
 				lm = []uint32{1026, 1025, 1024}[(i+l)%3]
 			} else if rng.Intn(4) == 0 {
